@@ -68,8 +68,9 @@ def _tsp_move(fea: bool) -> Contract:
     if fea:
         c.arrays["h"] = {"dims": [("ub", 1)]}
         c.ints["y"] = (0, "ub")
-        c.var_lemmas = {("rev_if_h_not_worse", "y2"): (0, "ub")}
-        c.lemmas = ["L2: y and y2 are true tour lengths, hence within "
+        c.index_lemmas = {("rev_if_h_not_worse", "h", 0): (0, "ub")}
+        c.lemmas = ["L2: the indices into h (y and the new length y + "
+                    "delta) are true tour lengths, hence within "
                     "[0, tour_length_upper_bound] (backed by C05 D5.1/D5.4 "
                     "and C06 D6.1-D6.5)"]
     return c
@@ -224,9 +225,15 @@ def _l1_hook(an: Analyzer, node: ast.AST, st: Any) -> bool:
     if an.cur.name != "_decode" or not an.loop_syms or not isinstance(
             node, ast.If):
         return False
-    inc = any(isinstance(s, ast.Assign) and isinstance(
-        s.targets[0], ast.Name) and s.targets[0].id == "bin_id"
-        for s in node.body)
+    counters = {n.id for r in ast.walk(an.cur.node)
+                if isinstance(r, ast.Return) and r.value is not None
+                for n in ast.walk(r.value) if isinstance(n, ast.Name)
+                and n.id != "int"}
+    inc = any(isinstance(s, (ast.Assign, ast.AnnAssign, ast.AugAssign))
+              and any(isinstance(t, ast.Name) and t.id in counters
+                      for t in (s.targets if isinstance(s, ast.Assign)
+                                else [s.target]))
+              for s in node.body)
     if not inc:
         return False
     return entails(st.facts, -Lin.sym(an.loop_syms[0]))
